@@ -169,6 +169,17 @@ class Ctx(object):
             labels = info.get("labels", ())
         for lab in labels:
             sub.labels[lab] += 1
+        if isinstance(info, dict) and "units" in info:
+            # a case that enumerates many sub-cases (e.g. fault points): each executed unit counts as an evaluation,
+            # each non-trivial unit as a distinct non-trivial case
+            sub.evaluations += max(0, info.get("unit_evaluations", len(info["units"])) - 1)
+            h = case_hash(case)
+            for unit in info["units"]:
+                sub.nontrivial.add(hashlib.sha1((h + "|" + unit).encode()).hexdigest()[:16])
+            sub.labels["nontrivial"] += len(info["units"])
+            if info["units"] and len(sub.samples) < 3:
+                sub.samples.append({"case": clip(case, 1200), "units": info["units"][:8]})
+            return
         if nt:
             sub.labels["nontrivial"] += 1
             h = case_hash(case)
